@@ -49,7 +49,7 @@ for i in range(S.budget):
     except Exception as e:
         S.count(None, 'head-exception:' + type(e).__name__)
         continue
-    if hmin > min(tab) * 1.001:
+    if hmin > min(tab) + 1e-3 * abs(min(tab)):      # 0.1 % of the magnitude: heads of short lines with a submerged entrance are negative
         S.violation('C10:qimin', f'system head at the reported minimum-friction flow {hmin} exceeds the head {min(tab)} at a tabulated flow', input=where)
     try:
         q = pl.find_operating_point(flow_list)
